@@ -700,6 +700,7 @@ class RewriteRuleSet:
         *,
         verbose: int | None,
         tracer: _basics.MatchingTracer | None = None,
+        root: ir.Graph | ir.Function | None = None,
     ) -> int:
         """
         Apply the rewrite rules to the given graph or function.
@@ -715,6 +716,9 @@ class RewriteRuleSet:
         """
         count = 0
         needs_sort = False
+        if root is None:
+            # The main graph or the function that (transitively) contains the subgraphs visited below
+            root = graph_or_function
 
         for rule in self.rules:
             if rule.graph_pre_visitor:
@@ -728,6 +732,10 @@ class RewriteRuleSet:
                 if delta is None or tracer is not None:
                     continue
                 assert isinstance(delta, ReplacementSubgraph)
+                if root is not graph_or_function:
+                    # A match inside an If/Loop body of a function: the opsets the
+                    # replacement uses must be imported by the enclosing function.
+                    _update_opset_imports(root, delta)
                 _isolate_existing_outputs(graph_or_function, delta)
                 if delta.new_initializers:
                     if isinstance(graph_or_function, ir.Function):
@@ -829,12 +837,12 @@ class RewriteRuleSet:
             for attr in node.attributes.values():
                 if attr.type == ir.AttributeType.GRAPH:
                     count += self._apply_to_graph_or_function(
-                        model, attr.value, verbose=verbose, tracer=tracer
+                        model, attr.value, verbose=verbose, tracer=tracer, root=root
                     )
                 elif attr.type == ir.AttributeType.GRAPHS:
                     for graph in attr.value:
                         count += self._apply_to_graph_or_function(
-                            model, graph, verbose=verbose, tracer=tracer
+                            model, graph, verbose=verbose, tracer=tracer, root=root
                         )
 
         if needs_sort:
